@@ -2,13 +2,14 @@
 // E-dmg: BOUNDED stand-in by EXHAUSTIVE ENUMERATION OF SINGLE-SITE DAMAGE over a fixed family of WAL layouts, executed natively (cargo test)
 // against the real MultiRecordLog::open on real files -- not a proof and not symbolic.  Used like E-hist (DESIGN.md 13.13): thorough tier, and
 // quick-tier fall-back when the deductive verdict is "undecided".  Public API + raw edits of the WAL files only.
-// Layouts: ~40 scenarios built through the public API (policy Always(Flush), no file is garbage-collected): an entry ending / starting with
+// Layouts: 38 scenarios built through the public API (policy Always(Flush), no file is garbage-collected): an entry ending / starting with
 // k in {0,1,6,7,8,9,40} bytes left in its 32 KiB block, 1-frame, 2-frame and 3-frame entries, a 4-record batch (last record empty) whose
 // record boundary falls one byte before / exactly on / one byte after a frame boundary, delete + re-create of a queue, entries spanning a WAL
 // file boundary, truncations (legitimate head removal of a batch, truncation of an empty queue into the future).
 // Damage, for EVERY frame of every layout (an independent walk over the frame headers finds them): one payload byte flipped (first / middle /
 // last), one checksum byte flipped, the type byte set to every other value in {0..5, 255}, the length set to len+-1, 0, 65535, "exactly to the
-// block end" and one beyond, the whole block zeroed, everything from (frame start + {0,3,7,7+len/2}) to the end of the log zeroed (torn tail).
+// block end" and one beyond, the whole block zeroed, everything from (frame start + {0,3,7,7+len/2}) to the end of the log zeroed (torn tail), the frame overwritten
+// by a copy of another frame of the same length (duplicated / transposed frames).
 // Oracles (tags): open never panics nor do the accessors (C10); every recovered record is byte-for-byte one that was appended, positions
 // strictly increasing (C08); a batch is recovered whole, not at all, or minus a head that a later truncate call removed (C12); damage confined
 // to the payload / checksum bytes of one frame: open succeeds and every retained record of every OTHER entry is recovered intact (C09);
@@ -22,8 +23,19 @@ mod verif_enum_dmg {
     const BLOCK: usize = crate::BLOCK_NUM_BYTES;
     const HDR: usize = 7;
 
-    #[derive(Clone, Debug)]
+    #[derive(Clone)]
     enum Step { Create(&'static str), Delete(&'static str), Append(&'static str, Vec<usize>), Truncate(&'static str, u64), Align(usize) }
+
+    impl std::fmt::Debug for Step {
+        fn fmt(&self, f: &mut std::fmt::Formatter) -> std::fmt::Result {
+            match self {
+                Step::Create(q) => write!(f, "create {q}"), Step::Delete(q) => write!(f, "delete {q}"), Step::Truncate(q, p) => write!(f, "truncate {q} ..={p}"),
+                Step::Align(k) => write!(f, "fill until {k} bytes are left in the block"),
+                Step::Append(q, v) if v.len() > 4 && v.iter().all(|x| *x == v[0]) => write!(f, "append {q} {} records of {} bytes", v.len(), v[0]),
+                Step::Append(q, v) => write!(f, "append {q} {v:?}"),
+            }
+        }
+    }
 
     #[derive(Clone, Debug, PartialEq)]
     struct Rec { q: &'static str, pos: u64, payload: Vec<u8>, call: usize, idx_in_batch: usize, batch_len: usize }
@@ -141,9 +153,9 @@ mod verif_enum_dmg {
     }
 
     #[derive(Clone, Debug)]
-    enum Dmg { None, Payload(usize), Crc(usize), Type(u8), Len(u16), ZeroBlock, Torn(usize) }
+    enum Dmg { None, Payload(usize), Crc(usize), Type(u8), Len(u16), ZeroBlock, Torn(usize), CopyOf(usize, usize) } // CopyOf(file, offset): overwritten by another frame of the same length
 
-    fn damages(f: &Frame, first_in_block: bool) -> Vec<Dmg> {
+    fn damages(f: &Frame, first_in_block: bool, all: &[Frame]) -> Vec<Dmg> {
         let mut v = Vec::new();
         if f.len > 0 { let mut is = vec![0, f.len / 2, f.len - 1]; is.dedup(); for i in is { v.push(Dmg::Payload(i)); } }
         v.push(Dmg::Crc(0)); v.push(Dmg::Crc(3));
@@ -155,6 +167,7 @@ mod verif_enum_dmg {
         if first_in_block { v.push(Dmg::ZeroBlock); }
         let mut ts = vec![0, 3, 7, 7 + f.len / 2]; ts.dedup();
         for t in ts { v.push(Dmg::Torn(t)); }
+        for g in all.iter().filter(|g| g.len == f.len && (g.file, g.off) != (f.file, f.off)).take(2) { v.push(Dmg::CopyOf(g.file, g.off)); }
         v
     }
 
@@ -168,6 +181,11 @@ mod verif_enum_dmg {
             Dmg::Crc(j) => bytes[f.off + j] ^= 0x01,
             Dmg::Type(t) => bytes[f.off + 6] = t,
             Dmg::Len(l) => { let le = l.to_le_bytes(); bytes[f.off + 4] = le[0]; bytes[f.off + 5] = le[1]; }
+            Dmg::CopyOf(gf, goff) => {
+                let src = std::fs::read(&b.files[gf]).unwrap();
+                let n = HDR + f.len;
+                bytes[f.off..f.off + n].copy_from_slice(&src[goff..goff + n]);
+            }
             Dmg::ZeroBlock => { let s = f.off - f.off % BLOCK; for x in &mut bytes[s..s + BLOCK] { *x = 0; } }
             Dmg::Torn(t) => {
                 let s = (f.off + t).min(bytes.len());
@@ -196,13 +214,14 @@ mod verif_enum_dmg {
             }
             Ok(Ok(g)) => g,
         };
+        let mut found: Vec<(Vec<&'static str>, String)> = Vec::new();
         // C08: nothing that was not appended
         for (q, recs, _) in &got {
-            for w in recs.windows(2) { if w[1].0 <= w[0].0 { return Some((vec!["C08"], format!("queue {q}: recovered positions not strictly increasing: {} then {}", w[0].0, w[1].0))); } }
+            for w in recs.windows(2) { if w[1].0 <= w[0].0 { found.push((vec!["C08"], format!("queue {q}: recovered positions not strictly increasing: {} then {}", w[0].0, w[1].0)));  } }
             for (pos, pl) in recs {
                 if !b.ever.iter().any(|r| r.q == q && r.pos == *pos && r.payload == *pl) {
                     let what = if b.ever.iter().any(|r| r.q == q && r.pos == *pos) { "with bytes that differ from what was appended there" } else { "although nothing was ever appended there" };
-                    return Some((vec!["C08"], format!("queue {q}: recovered a record at position {pos} ({} bytes) {what}", pl.len())));
+                    found.push((vec!["C08"], format!("queue {q}: recovered a record at position {pos} ({} bytes) {what}", pl.len()))); 
                 }
             }
         }
@@ -216,10 +235,10 @@ mod verif_enum_dmg {
             let first = present.iter().position(|p| *p);
             if let Some(j) = first {
                 if present[j..].iter().any(|p| !*p) {
-                    return Some((vec!["C12"], format!("batch of call {c} (queue {}, positions {}..={}) recovered with a hole or a missing tail: present = {present:?}", batch[0].q, batch[0].pos, batch.last().unwrap().pos)));
+                    found.push((vec!["C12"], format!("batch of call {c} (queue {}, positions {}..={}) recovered with a hole or a missing tail: {}", batch[0].q, batch[0].pos, batch.last().unwrap().pos, fmt_present(&present)))); 
                 }
                 if j > 0 && !b.truncs.iter().any(|(tc, tq, upto)| *tc > c && *tq == batch[0].q && *upto >= batch[j - 1].pos) {
-                    return Some((vec!["C12"], format!("batch of call {c} (queue {}) recovered without its first {j} record(s) although no truncate removed them: present = {present:?}", batch[0].q)));
+                    found.push((vec!["C12"], format!("batch of call {c} (queue {}) recovered without its first {j} record(s) although no truncate removed them: {}", batch[0].q, fmt_present(&present)))); 
                 }
             }
         }
@@ -228,7 +247,7 @@ mod verif_enum_dmg {
             for r in &b.retained {
                 let (e0, e1) = b.call_entries[r.call];
                 if (e0..e1).contains(&f.entry) { continue; }
-                if !has(r) { return Some((vec!["C09"], format!("record {}@{} ({} bytes, written by call {}) is lost although the damaged frame belongs to another entry (entry {})", r.q, r.pos, r.payload.len(), r.call, f.entry))); }
+                if !has(r) { found.push((vec!["C09"], format!("record {}@{} ({} bytes, written by call {}) is lost although the damaged frame belongs to another entry (entry {})", r.q, r.pos, r.payload.len(), r.call, f.entry)));  }
             }
         }
         // C07 / C01: no damage
@@ -238,10 +257,20 @@ mod verif_enum_dmg {
             exp.sort();
             if exp != got {
                 let s = |v: &Vec<(String, Vec<(u64, Vec<u8>)>, Option<u64>)>| v.iter().map(|x| format!("{}: {:?} last {:?}", x.0, x.1.iter().map(|r| (r.0, r.1.len())).collect::<Vec<_>>(), x.2)).collect::<Vec<_>>().join("; ");
-                return Some((vec!["C07", "C01"], format!("undamaged log reopened: [{}], written: [{}]", s(&got), s(&exp))));
+                found.push((vec!["C07", "C01"], format!("undamaged log reopened: [{}], written: [{}]", s(&got), s(&exp)))); 
             }
         }
-        None
+        if found.is_empty() { return None; }
+        let mut tags: Vec<&'static str> = found.iter().flat_map(|f| f.0.iter().copied()).collect();
+        tags.sort(); tags.dedup();
+        let mut details: Vec<String> = Vec::new();
+        for f in &found { if details.len() < 3 && !details.iter().any(|d| d[..20.min(d.len())] == f.1[..20.min(f.1.len())]) { details.push(f.1.clone()); } }
+        Some((tags, details.join(" ;; ")))
+    }
+
+    fn fmt_present(p: &[bool]) -> String {
+        let runs: Vec<String> = p.chunk_by(|a, b| a == b).map(|c| format!("{} {}", c.len(), if c[0] { "recovered" } else { "missing" })).collect();
+        format!("records of the batch in order: {}", runs.join(", "))
     }
 
     fn open_and_observe(dir: PathBuf) -> std::thread::Result<Result<Vec<(String, Vec<(u64, Vec<u8>)>, Option<u64>)>, String>> {
@@ -279,6 +308,10 @@ mod verif_enum_dmg {
             let mut s = pre(); s.extend([Align(0), Append("a", vec![10_000, 22_724 + j, 5_000, 0]), Append("b", vec![10])]);
             v.push((format!("batch-record-boundary-{}-frame-boundary", ["before", "on", "after"][j]), s));
         }
+        // a batch of 600 records of 181 bytes each on the wire (12 + 169): a Middle frame carries 32761 = 181 * 181 bytes, i.e. whole records' worth --
+        // the entry minus one Middle frame still parses as a batch, so only the frame sequence protects its atomicity
+        let mut s = pre(); s.extend([Append("a", vec![7]), Align(0), Append("a", vec![169; 600]), Append("b", vec![10]), Append("a", vec![10])]);
+        v.push(("batch-of-600-whole-records-per-middle-frame".to_string(), s));
         let mut s = pre(); s.extend([Append("a", vec![10, 20]), Delete("a"), Create("a"), Append("a", vec![30]), Append("b", vec![10]), Append("a", vec![11])]);
         v.push(("delete-recreate".to_string(), s));
         for k in [0usize, 6, 7, 500] {
@@ -311,7 +344,7 @@ mod verif_enum_dmg {
                     let mut cases: Vec<(Frame, Dmg)> = vec![(b.frames[0].clone(), Dmg::None)];
                     for (fi, f) in b.frames.iter().enumerate() {
                         let first_in_block = fi == 0 || b.frames[fi - 1].file != f.file || b.frames[fi - 1].off / BLOCK != f.off / BLOCK;
-                        for d in damages(f, first_in_block) { cases.push((f.clone(), d)); }
+                        for d in damages(f, first_in_block, &b.frames) { cases.push((f.clone(), d)); }
                     }
                     for (f, d) in cases {
                         let t = tempfile::tempdir().unwrap();
@@ -320,7 +353,9 @@ mod verif_enum_dmg {
                         let res = open_and_observe(t.path().to_path_buf());
                         if let Some((tags, detail)) = judge(&b, &f, &d, res) {
                             let key = tags.join(",");
-                            let n = per_tag.entry(key.clone()).or_default();
+                            // at most 2 reports per layout, tag set and KIND of damage (so that one kind cannot crowd out another)
+                            let kind = format!("{d:?}"); let kind = kind.split('(').next().unwrap().to_string();
+                            let n = per_tag.entry(format!("{key}|{kind}")).or_default();
                             *n += 1;
                             if *n <= 2 {
                                 fails.lock().unwrap().push(format!("E-HIST-FAIL tags={key} run=E-dmg layout={name} steps={steps:?} damage={d:?} frame=(file {} offset {} len {} type {} entry {}) :: {detail}", f.file, f.off, f.len, f.ty, f.entry));
@@ -331,7 +366,7 @@ mod verif_enum_dmg {
             }
         });
         let fails = fails.into_inner().unwrap();
-        eprintln!("E-dmg: {} layouts, {} damaged (or intact) images opened, {} failing (at most 2 reported per layout and tag set)", scen.len(), count.into_inner(), fails.len());
+        eprintln!("E-dmg: {} layouts, {} damaged (or intact) images opened, {} failing (at most 2 reported per layout, tag set and kind of damage)", scen.len(), count.into_inner(), fails.len());
         for f in &fails { eprintln!("{f}"); }
         assert!(fails.is_empty(), "E-dmg: {} failing cases, first: {}", fails.len(), fails[0]);
     }
